@@ -71,6 +71,46 @@ func opFix(v uint64, l int) string {
 	})
 }
 
+// opFixOwn: the fixed-width round trip exactly as ByteArraysBuilder/ByteArrays do it — the width is
+// Uint64Length(v) itself.
+func opFixOwn(v uint64) string {
+	return hx.Recover(func() string {
+		l := encoding.Uint64Length(v)
+		buf := make([]byte, 16)
+		encoding.MarshalUint64(v, l, buf)
+		back := encoding.UnmarshalUint64(l, capped(buf[:l]))
+		return fmt.Sprintf("%d %s %s", l, hx.Hex(buf[:l]), u(back))
+	})
+}
+
+// opBAL: layout only — reserve the item lengths, write the header (no payload is ever written, so
+// the sizes cost nothing) and read the offset table and the total length back.
+func opBAL(lengths []uint64) string {
+	return hx.Recover(func() string {
+		b := encoding.NewByteArraysBuilder(len(lengths))
+		for i, l := range lengths {
+			b.Reserve(i, int(l))
+		}
+		var buf encoding.Buffer
+		end, err := b.WriteHeader(&buf, 0)
+		if err != nil {
+			return "err"
+		}
+		data := capped(buf.Bytes())
+		ba := encoding.NewByteArrays(data)
+		ob := ba.Layout.OffsetBytes
+		offs := make([]string, len(lengths)+1)
+		for i := range offs {
+			i := i
+			offs[i] = hx.Recover(func() string {
+				return u(encoding.UnmarshalUint64(ob, data[encoding.ByteArraysLayoutLength+i*ob:]))
+			})
+		}
+		rlen := hx.Recover(func() string { return fmt.Sprintf("%d", ba.Length()) })
+		return fmt.Sprintf("%s %d %d %s %d %s", hx.Hex(data), end, b.Length(), rlen, ba.NumItems(), hx.List(offs))
+	})
+}
+
 // ---- byte arrays ---------------------------------------------------------------------------------
 
 type reservation struct{ item, length int }
@@ -370,8 +410,30 @@ func hasBigDelta(vs []uint64) bool {
 	return false
 }
 
+// boundaryWord: 2^(8k)-1, 2^(8k), 2^(8k)+1, samples of [2^32, 2^33), or a random word
+func boundaryWord(r *hx.Rand) uint64 {
+	switch r.Intn(4) {
+	case 0:
+		return uint64(1)<<uint(8*(1+r.Intn(7))) + uint64(r.Intn(3)) - 1
+	case 1:
+		return 1<<32 + r.Uint64()%(1<<32)
+	case 2:
+		return uint64(1)<<uint(1+r.Intn(63)) + uint64(r.Intn(3)) - 1
+	}
+	return word(r)
+}
+
 func genInts(c *hx.Ctx) {
 	r := c.Rand
+	if r.Chance(1, 4) {
+		v := boundaryWord(r)
+		c.Op("fixown "+u(v), opFixOwn(v))
+		c.Note("op:fixown")
+		if v >= 1<<32 {
+			c.NonTrivial()
+		}
+		return
+	}
 	switch r.Intn(6) {
 	case 0, 1:
 		vs := seq(r)
@@ -430,8 +492,46 @@ func genInts(c *hx.Ctx) {
 	}
 }
 
+// genBAL: reserved lengths whose sum sits on / next to a pointer-width boundary
+func genBAL(c *hx.Ctx) {
+	r := c.Rand
+	total := uint64(1)<<uint(8*(1+r.Intn(5))) + uint64(r.Intn(3)) - 1
+	if r.Chance(1, 4) {
+		total = 1<<32 + r.Uint64()%(1<<32) // 4GiB..8GiB: needs 5-byte pointers
+	}
+	n := 1 + r.Intn(5)
+	lengths := make([]uint64, n)
+	left := total
+	for i := 0; i < n-1; i++ {
+		switch r.Intn(3) {
+		case 0:
+			lengths[i] = 0
+		case 1:
+			lengths[i] = uint64(r.Intn(8))
+		default:
+			lengths[i] = r.Uint64() % (left + 1)
+		}
+		if lengths[i] > left {
+			lengths[i] = left
+		}
+		left -= lengths[i]
+	}
+	lengths[n-1] = left
+	if r.Bool() { // the big item not last
+		j := r.Intn(n)
+		lengths[j], lengths[n-1] = lengths[n-1], lengths[j]
+	}
+	c.Op("bal "+words(lengths), opBAL(lengths))
+	c.Note("op:bal")
+	c.NonTrivial()
+}
+
 func genBA(c *hx.Ctx) {
 	r := c.Rand
+	if r.Chance(1, 5) {
+		genBAL(c)
+		return
+	}
 	n := r.Intn(7)
 	// what each item will receive, as a list of write calls
 	var ws []write
@@ -613,7 +713,7 @@ func genMap(c *hx.Ctx) {
 func main() {
 	hx.Main(hx.Family{
 		Name:     "c09",
-		Rule:     "each case is one of: 3 integer ops (delta/zigzag coded sequences incl. wrap-around deltas and decode of mutated bytes, fixed-width ints, Uint64Length), one ByteArrays build (random reservations split over several Reserve calls, writes in random order, 0-6 items) + every item read back, one StringTable build, or one Uint64Map build (requested bucket bits 0..12, tag bits 0..7, ids from a small pool with shared buckets, top bits and duplicates) followed by FillTagged/FindFirst/FindFirstWithTag queries on present and absent ids, a full iteration and EachItem; non-trivial = delta with |d| >= 2^62, fixed width of a value >= 2^32, an exactly-filled ByteArrays with >= 3 writes, a string table with >= 5 adds, a map with duplicate ids and a top-bit id; distinct = by hash of the op text",
+		Rule:     "each case is one of: 3 integer ops (fixed width at the value's own Uint64Length on byte-boundary values and [2^32,2^33) samples, delta/zigzag coded sequences incl. wrap-around deltas and decode of mutated bytes, fixed-width ints, Uint64Length), one ByteArrays build (or a layout-only build whose reserved total sits next to 2^8k or in 4..8 GiB, offset table and length read back; random reservations split over several Reserve calls, writes in random order, 0-6 items) + every item read back, one StringTable build, or one Uint64Map build (requested bucket bits 0..12, tag bits 0..7, ids from a small pool with shared buckets, top bits and duplicates) followed by FillTagged/FindFirst/FindFirstWithTag queries on present and absent ids, a full iteration and EachItem; non-trivial = delta with |d| >= 2^62, fixed width of a value >= 2^32, an exactly-filled ByteArrays with >= 3 writes, a string table with >= 5 adds, a map with duplicate ids and a top-bit id; distinct = by hash of the op text",
 		Quick:    2500,
 		Thorough: 120000,
 		Corpus: func(c *hx.Ctx) {
@@ -633,6 +733,21 @@ func main() {
 				c.Op("firsttag "+u(1<<63+5)+" 3", opFirstTag(built.m, 1<<63+5, 3))
 				c.Op("iter", opIter(built.m))
 				c.Op("each 2", opEach(built.m, 2))
+			}
+			// fixed width at the value's own length, every byte boundary and the 4/5-byte one in particular
+			for k := uint(1); k < 8; k++ {
+				for d := uint64(0); d < 3; d++ {
+					v := uint64(1)<<(8*k) + d - 1
+					c.Op("fixown "+u(v), opFixOwn(v))
+				}
+			}
+			for _, v := range []uint64{1 << 32, 1<<32 + 1, 5 << 30, 1<<33 - 1, 1 << 33, 1<<64 - 1, 0} {
+				c.Op("fixown "+u(v), opFixOwn(v))
+			}
+			// layout-only byte arrays whose total sits on a pointer-width boundary (nothing is allocated)
+			for _, total := range []uint64{1<<8 - 1, 1 << 8, 1<<8 + 1, 1<<16 - 1, 1 << 16, 1<<16 + 1, 1<<24 - 1, 1 << 24, 1<<24 + 1, 1<<32 - 1, 1 << 32, 1<<32 + 1, 5 << 30} {
+				ls := []uint64{5, total - 29, 20, 0, 4}
+				c.Op("bal "+words(ls), opBAL(ls))
 			}
 			c.Op("fix 18446744073709551615 8", opFix(1<<64-1, 8))
 			c.Op("fix 256 1", opFix(256, 1))
